@@ -544,6 +544,8 @@ def listener(ctx: Any) -> List[Ob]:
     tcfg = cfg_of(tb.node)
     wj = tcfg.must_pass_before_exit(tcfg.entry, lambda n: any(call_name(x) == 'join' and isinstance(x.func, ast.Attribute) and self_attr(x.func, tb.params[0]) for x in n.calls()))
     obs.append(ob(R, tb, 'self.queue.put(None); ...; self.join()', 'cancelling a threaded browser waits for its dispatch thread on every path, so no queued callback runs after the cancel (and the close) has returned', wj is None, 'a path returns without joining the dispatch thread' if wj is not None else ''))
+    from .common import expand as _xp_st
+
     st = prog.func('zeroconf._services.browser.QueryScheduler.stop')
     me = st.params[0]
     atoms_none = {}
@@ -555,8 +557,8 @@ def listener(ctx: Any) -> List[Ob]:
     def eff(node: Any, evl: Any) -> List[Any]:
         out = []
         for x in node.calls():
-            if call_name(x) == 'cancel' and isinstance(x.func, ast.Attribute) and self_attr(x.func.value, me) == '_next_run':
-                out.append('CANCEL')
+            if call_name(x) == 'cancel' and isinstance(x.func, ast.Attribute) and self_attr(_xp_st(st, x.func.value), me) == '_next_run':
+                out.append('CANCEL')  # on the handle itself, or on a local that names it
             if call_name(x) == 'clear' and isinstance(x.func, ast.Attribute):
                 out.append('CLEAR:' + (self_attr(x.func.value, me) or '?'))
         return out
